@@ -51,6 +51,7 @@ fn main() {
         "C13" => props::c13::run(&ctx),
         "C16" => props::c16::run(&ctx),
         "C19" => props::c19::run(&ctx),
+        "C20" => props::c20::run(&ctx),
         _ => {
             eprintln!("vcheck: no in-process engine for {}", prop);
             std::process::exit(2);
